@@ -524,10 +524,32 @@ func (pd *perRawBitData) parseSequenceOf(v reflect.Value, params fieldParameters
 			return err
 		}
 	} else {
+		// general length determinant (X.691 10.9.3.5 - 10.9.3.8): one octet up to 127 elements, two octets up to
+		// 16383, fragments of 16K elements above that
 		perTrace(3, fmt.Sprintf("Encoding Length(%d) of \"SEQUENCE OF\" with Semi-Constraint Range(%d..)", numElements, lb))
-		pd.appendAlignBits()
-		pd.bytes = append(pd.bytes, byte(numElements&0xff))
-		perTrace(1, perRawBitLog(8, len(pd.bytes), pd.bitsOffset, uint64(numElements)))
+		params.sizeExtensible = false
+		params.sizeUpperBound = nil
+		params.sizeLowerBound = nil
+		for next, rest := 0, v.Len(); ; {
+			part := rest
+			if part >= 65536 {
+				part = 65536
+			} else if part >= 16384 {
+				part &= 0xc000
+			}
+			if err := pd.appendLength(-1, uint64(part)); err != nil {
+				return err
+			}
+			for i := 0; i < part; i++ {
+				if err := pd.makeField(v.Index(next+i), params); err != nil {
+					return err
+				}
+			}
+			next, rest = next+part, rest-part
+			if part < 16384 {
+				return nil
+			}
+		}
 	}
 	perTrace(2, fmt.Sprintf("Encoding  \"SEQUENCE OF\" struct %s with len(%d)", v.Type().Elem().Name(), numElements))
 	params.sizeExtensible = false
